@@ -15,7 +15,8 @@ META = {
             "(Freeze per kind, writeValue with its path stack, CompareDepth with its depth counter, Tuple/Struct hashing, json.encode with its pointer path) over an object-graph heap "
             "(lists, dicts, sets, tuples, structs, closures with default values and cells, bound methods): for EVERY finite heap the interpreter can build, cyclic ones included, "
             "the recursion depth is bounded by a function of the heap size (freeze_total, compare_total, hash_total, json_emit_total: all heaps; write_value is REFUTED for the code as it is "
-            "-- a struct inside a list inside itself, Struct.String restarts the cycle path -- and proved under the guard `no struct in the heap` and for the repair `Struct.String hands the path on`). "
+            "-- a struct inside a list inside itself, Struct.String restarts the cycle path -- and characterised exactly: write_value_ends_iff_no_struct_cycle (printing never ends, for any fuel, iff a detector traversal finds a struct re-entered while open; "
+            "otherwise it ends within (size+2)^3 nested calls), plus the partial statements for heaps without structs / with structs of immutable data and the full statement for the repair `Struct.String hands the path on`). "
             "(ii) A table of the 102 functions with the built-in signature (argument-unpacking call, min/max positional arguments, interface-typed destination variables that stay nil, "
             "method calls on them, nil / len(args) tests, args[i] uses) with arity_table_safe and arity_no_panic (no accepted argument count reaches a nil dereference or an out-of-range args[i]); "
             "the table is re-derived from the Go source (go/ast) on every run and compared. "
